@@ -309,6 +309,54 @@ async fn doc_gadget(rqctx: RequestContext<()>, path: Path<IdPath>) -> Result<Htt
     }
 }
 
+// A declared response header whose type is a named type that is nothing but a reference to another named type
+// (a newtype around an enum): every type reachable from a header must end up in the document.
+#[derive(Serialize, JsonSchema, Clone, Copy)]
+#[serde(rename_all = "snake_case")]
+enum BackoffKind {
+    Linear,
+    Exponential,
+}
+#[derive(Serialize, JsonSchema, Clone, Copy)]
+struct RetryPolicy(BackoffKind);
+#[derive(Serialize, JsonSchema)]
+struct HdrRetry {
+    #[serde(rename = "x-retry-policy")]
+    policy: RetryPolicy,
+}
+#[endpoint { method = GET, path = "/with-retry-header" }]
+async fn doc_with_retry_header(rqctx: RequestContext<()>) -> Result<HttpResponseHeaders<HttpResponseOk<Thing>, HdrRetry>, HttpError> {
+    entered(&rqctx, "doc_with_retry_header");
+    // (typed header values are sent as strings only; this operation exists for its *document* -- the header's
+    // type and what it refers to -- and always answers with an error)
+    let _ = HdrRetry { policy: RetryPolicy(BackoffKind::Exponential) };
+    let _ = BackoffKind::Linear;
+    Err(HttpError::for_client_error(None, dropshot::ClientErrorStatusCode::GONE, "no retry policy here".to_string()))
+}
+
+/// every "$ref" of the document, with whether it resolves inside the document
+fn collect_refs(doc: &Value, v: &Value, out: &mut Vec<String>) {
+    match v {
+        Value::Object(m) => {
+            if let Some(Value::String(r)) = m.get("$ref") {
+                let ok = r.starts_with("#/") && doc.pointer(&r[1..]).is_some();
+                if !ok {
+                    out.push(r.clone());
+                }
+            }
+            for x in m.values() {
+                collect_refs(doc, x, out);
+            }
+        }
+        Value::Array(a) => {
+            for x in a {
+                collect_refs(doc, x, out);
+            }
+        }
+        _ => {}
+    }
+}
+
 // Responses the handler returns successfully but the framework cannot turn into an HTTP response (an
 // illegal header value, a body that fails to serialise): the 500 it generates must be valid against the error
 // schema documented for that operation -- the endpoint's own error type where it has one.
@@ -405,6 +453,7 @@ fn main() {
         api.register(doc_fail).unwrap();
         api.register(doc_custom).unwrap();
         api.register(doc_gadget).unwrap();
+        api.register(doc_with_retry_header).unwrap();
         api.register(doc_custom_hdr).unwrap();
         api.register(doc_custom_fussy).unwrap();
         api.register(doc_plain_hdr).unwrap();
@@ -418,6 +467,9 @@ fn main() {
         let mut r = rng(seed, 7);
         let mut ctr = 0u64;
         emit("reset", json!({"kind": "doc", "defs": ndefs}));
+        let mut dangling = vec![];
+        collect_refs(&doc, &doc, &mut dangling);
+        emit("doc_refs", json!({"unresolved": dangling}));
 
         let paths = doc["paths"].as_object().cloned().unwrap_or_default();
         for (ptemplate, item) in paths {
